@@ -20,6 +20,7 @@ pub fn cfg() -> GenCfg {
         p_inherits: 25,
         max_pieces: 10,
         max_comp_depth: 5,
+        stray_lt: true,
         ..GenCfg::default()
     }
 }
